@@ -463,7 +463,7 @@ class IrregularlyPartitionedArray(object):
 
     def __del__(self):
         h = getattr(self, "_h", None)
-        if h is not None and akb._lib is not None:
+        if h is not None and akb is not None and akb._lib is not None:
             try:
                 akb._lib.akb_partitioned_free(h)
             except Exception:
